@@ -397,11 +397,41 @@ func runC41(r *Report) {
 		r.Ob("R41c", fn, "queues-detached", fn.Pos(), cleared == 2, "Exec detaches both the queued commands and the queued results")
 		if typ == "TxPipeline" {
 			okTx := false
+			isMultiExec := func(a, b ssa.Value) bool {
+				return strings.Contains(Desc(a), "(Multi).Build") && strings.Contains(Desc(b), "(Exec).Build")
+			}
 			for _, b := range fn.Blocks {
 				for _, in := range b.Instrs {
-					if c, ok := in.(*ssa.Call); ok && CalleeName(c) == "builtin.append" {
+					c, ok := in.(*ssa.Call)
+					if !ok {
+						continue
+					}
+					if CalleeName(c) == "builtin.append" {
 						els := variadicElemsOrdered(c.Call.Args[1])
-						if len(els) == 2 && strings.Contains(Desc(els[0]), "(Multi).Build") && strings.Contains(Desc(els[1]), "(Exec).Build") {
+						if len(els) == 2 && isMultiExec(els[0], els[1]) {
+							okTx = true
+						}
+						continue
+					}
+					// or an unexported helper of the package that appends the two commands it is handed, in that order
+					h := c.Call.StaticCallee()
+					if h == nil || h.Blocks == nil || h.Pkg != fn.Pkg || isExportedName(h.Name()) {
+						continue
+					}
+					for _, hs := range CallSites(h, "builtin.append") {
+						els := variadicElemsOrdered(hs.Call().Common().Args[1])
+						if len(els) != 2 {
+							continue
+						}
+						var args [2]ssa.Value
+						for k, prm := range h.Params {
+							for e := 0; e < 2; e++ {
+								if els[e] == ssa.Value(prm) && k < len(c.Call.Args) {
+									args[e] = c.Call.Args[k]
+								}
+							}
+						}
+						if args[0] != nil && args[1] != nil && isMultiExec(args[0], args[1]) {
 							okTx = true
 						}
 					}
